@@ -36,6 +36,16 @@ fn main() {
     }
     // validation
     if integrate(2.0, 1.0, |x: f64| x, 1e-6).is_ok() { found.push("integrate accepted a reversed interval".into()); }
+    // hard bound on polynomials of degree <= 5 (the estimator is reliable there): the error of an Ok result stays within 2 tol,
+    // also when the recursion goes deep (every bisection halves the tolerance of both halves)
+    for (name, f, a, b, exact) in [("x^4 on [1,5]", (|x: f64| x.powi(4)) as fn(f64) -> f64, 1.0, 5.0, (5f64.powi(5) - 1.0) / 5.0),
+                                   ("x^5-3x^4+x on [-1,3]", (|x: f64| x.powi(5) - 3.0 * x.powi(4) + x) as fn(f64) -> f64, -1.0, 3.0, (729.0 - 1.0) / 6.0 - 3.0 * (243.0 + 1.0) / 5.0 + (9.0 - 1.0) / 2.0)] {
+        for tol in [1e-6, 1e-8, 1e-9, 1e-11] {
+            if let Ok(v) = integrate_simpson(a, b, f, tol, 60) {
+                if (v - exact).abs() > 2.0 * tol + 1e-12 * exact.abs() { found.push(format!("integrate_simpson {name} tol={tol:e}: error {:e} = {:.1} x tol", (v - exact).abs(), (v - exact).abs() / tol)); }
+            }
+        }
+    }
     if integrate_simpson(2.0, 1.0, |x: f64| x, 1e-6, 10).is_ok() { found.push("integrate_simpson accepted a reversed interval".into()); }
     if integrate_fixed(2.0, 1.0, |x: f64| x, 3).is_ok() { found.push("integrate_fixed accepted a reversed interval".into()); }
     match integrate_gaussian(2.0, 1.0, |x: f64| x * x, 1e-6) { Ok(v) => found.push(format!("integrate_gaussian accepted the reversed interval (2,1) and returned {v}")), Err(_) => {} }
